@@ -27,6 +27,8 @@ import (
 	"verifmc/internal/ops"
 	"verifmc/internal/vnode"
 	"verifmc/internal/xs"
+	"verifmc/props/c10"
+	"verifmc/props/c11"
 )
 
 var M = ops.Op{K: "M"}
@@ -154,6 +156,14 @@ func run(c *xs.Ctx, r *xs.Result) {
 				replay(c, r, b, rep.History)
 			}
 		}
+		for _, src := range borrowed() {
+			for _, b := range src.bases {
+				if b.Name == rep.Base {
+					src.setup()
+					replay(c, r, b, rep.History)
+				}
+			}
+		}
 		return
 	}
 	var prev *prevState
@@ -177,6 +187,55 @@ func run(c *xs.Ctx, r *xs.Result) {
 		e2.Depth = 3
 		e2.Run()
 	}
+	// Part 2: "every embedded-contract call, including failed calls that are refunded" and "reward minting": the
+	// deposit / withdrawal alphabets of C10 (stake, plasma, sentinel, pillar QSR and collateral, HTLC, liquidity stake,
+	// bridge wrap / unwrap) and the reward alphabet of C11 (epoch updates after missed slots and outages, collects),
+	// from their base states, under the supply oracle. Their process-global configurations are applied in this order
+	// after the part above has run (each only shrinks waiting times).
+	bd := 2
+	if c.Thorough() {
+		bd = 3
+	}
+	for _, src := range borrowed() {
+		if r.Incomplete {
+			return
+		}
+		src.setup()
+		eb := *e
+		eb.Bases, eb.Alphabet, eb.Depth, eb.SnapshotBases = src.bases, src.alpha, bd, true
+		eb.Run()
+		r.Count("borrowed_families", 1)
+	}
+}
+
+type source struct {
+	name  string
+	setup func()
+	alpha []ops.Op
+	bases []hx.Base
+}
+
+func borrowed() []source {
+	var out []source
+	for _, f := range c10.Families(false) {
+		var bs []hx.Base
+		for _, b := range f.Bases {
+			bs = append(bs, hx.Base{Name: "c10:" + b.Name, Prefix: b.Prefix})
+		}
+		out = append(out, source{"c10:" + f.Name, c10.Setup, f.Alpha, bs})
+	}
+	var alpha []ops.Op
+	for _, o := range c11.Alphabet(false) {
+		if o.K != "Q" { // a read-only query: nothing for the supply equation
+			alpha = append(alpha, o)
+		}
+	}
+	var bs []hx.Base
+	for _, b := range c11.Bases() {
+		bs = append(bs, hx.Base{Name: "c11:" + b.Name, Prefix: b.Prefix})
+	}
+	out = append(out, source{"c11:rewards", c11.Setup, alpha, bs})
+	return out
 }
 
 func check(r *xs.Result, s *hx.Step, prev **prevState, prevTokRecv *[2]int) bool {
